@@ -84,7 +84,13 @@ func (ld *Loaded) lemmaVC(fn *ssa.Function, kcase int) (vc *VC, err error) {
 	if kcase >= 0 {
 		name += fmt.Sprintf("[%d]", kcase)
 	}
-	return &VC{Name: name, Layer: "P", Query: q, B: x.b, Exec: x, Replay: &ReplaySpec{Kind: "lemma", Note: fn.Name()}}, nil
+	// model values of scalar parameters (for the replay of ground / scalar lemmas)
+	for i, a := range args {
+		if t, ok := a.(*Term); ok && t.S.K != 'a' {
+			q.Values = append(q.Values, NamedTerm{fmt.Sprintf("lemmaarg:%d", i), t})
+		}
+	}
+	return &VC{Name: name, Layer: "P", Query: q, B: x.b, Exec: x, Replay: &ReplaySpec{Kind: "lemma", Note: fn.Name(), Lemma: fn, Kcase: kcase}}, nil
 }
 
 func (r *Run) checkLemmas(ld *Loaded, prop string) {
